@@ -183,10 +183,14 @@ theorem same_conv_preserves (k p d n : Nat) (hk : d * (k - 1) = 2 * p) (hk1 : 1 
   omega
 
 /-- **Conv2dGRU shape identity**, full strength: replication padding *and* zero padding, any number of layers, with or
-without instance normalisation in the gates.  (The remembered input shape stays on the stack.) -/
+without instance normalisation in the gates. -/
 theorem gru_shape_id (repl inorm : Bool) (layers : Nat) (s : Shape) (stk tr : List Shape) (h : ∀ n ∈ s, 1 ≤ n)
     (hn : inorm = true → 1 < numel s) :
-    ∃ tr', run (gru repl inorm layers) ⟨s, stk, tr⟩ = .ok ⟨s, s :: stk, tr'⟩ := gru_ok repl inorm layers s stk tr h hn
+    ∃ tr', run (gru repl inorm layers) ⟨s, stk, tr⟩ = .ok ⟨s, stk, tr'⟩ := gru_ok repl inorm layers s stk tr h hn
+
+/-- the fine-grained programs the translator emits (`padTop`/`cropTop`/`pop`/`popSame` instead of the composite stack
+operations) run exactly like the programs the theorems are about -/
+theorem expanded_program_equiv (p : List Op) (st : State) : run (expand p) st = run p st := run_expand p st
 
 /-- regression witness (pinned tree, repaired by bf46aca): with `replication_padding=False` the dilated block
 `idx == 1` (`kernel 3, dilation 2`) was given `padding = 1` instead of `2`: a one-layer cell returned `(H − 2, W − 2)` … -/
@@ -326,6 +330,16 @@ theorem unrolled_call_count (pre body : List Block) (iters n coil : Nat) (sp : S
     (unrolledCalls pre body iters n coil sp).length =
       (pre.flatMap fun b => b.calls n coil sp).length + iters * (body.flatMap fun b => b.calls n coil sp).length := by
   simp only [unrolledCalls, List.length_append, List.length_flatten, List.map_replicate, List.sum_replicate_nat]
+
+/-- the calls of an unrolled network are the calls of its block sequence (`Sched.blocks`, which the bridge compares with
+the schedule read from each `forward`) -/
+theorem unrolledCalls_eq_blocks (pre body : List Block) (iters n coil : Nat) (sp : Shape) :
+    unrolledCalls pre body iters n coil sp = (unrolledBlocks pre body iters).flatMap fun b => b.calls n coil sp := by
+  simp only [unrolledCalls, unrolledBlocks, List.flatMap_append]
+  congr 1
+  induction iters with
+  | zero => rfl
+  | succ k ih => simp only [List.replicate_succ, List.flatten_cons, List.flatMap_append, ih]
 
 /-! ## non-vacuity: the hypotheses are met by odd, even, non-square, non-power-of-two sizes -/
 
